@@ -155,12 +155,33 @@ def history_task(task):
                         monitors.tree_wellformed(new, expect_idxs=sorted(set(by_idx) - set(hist.unassigned)))
                         monitors.tree_wellformed(old)
                         part.count("wellformed_evaluations", 2)
+                        for label, it in hist.inter:
+                            try:
+                                monitors.tree_wellformed(it)
+                            except Broken as b:
+                                raise Broken("%s: %s" % (label, b.what), b.detail)
+                            part.count("wellformed_evaluations")
                     if "rebuild" in mons:
                         st = {}
                         dev = monitors.rebuild_equal(new, by_idx, tds, stats=st)
                         part.count("trees_outside_underflow_window", st.get("outside_window", 0))
                         part.maxi("max_rebuild_dev", dev)
                         part.count("rebuild_evaluations")
+                        for label, it in hist.inter:
+                            try:
+                                monitors.rebuild_equal(it, by_idx, tds, stats=st)
+                            except Broken as b:
+                                raise Broken("%s: %s" % (label, b.what), b.detail)
+                            part.count("rebuild_evaluations_intermediate")
+                        for w in hist.witnesses:
+                            if w[2] is None:
+                                w[2] = monitors.digest(w[1])
+                                part.count("multi_graft_witnesses")
+                            elif monitors.digest(w[1]) != w[2]:
+                                raise Broken("%s changed when another tree was edited (shared state after a graft)" % w[0])
+                            else:
+                                monitors.rebuild_equal(w[1], by_idx, tds, stats=st) if w[0].startswith("second") else None
+                        hist.witnesses = hist.witnesses[-4:]
                         if monitors.digest(old) != before:
                             raise Broken("editing the product of %s changed the source tree (shared state)" % d["op"])
                         frozen.append((old, before, d["op"]))
